@@ -24,6 +24,8 @@ ASSUMPTIONS = ["transport accepts whole writes (short writes are C12)"]
 
 
 def run_case(case):
+    if "app" in case:
+        return run_app_case(case)
     obs = Obs()
     specs, driver, cf = case["frames"], case["driver"], case.get("cf", False)
     pre = case.get("pre")
@@ -127,7 +129,7 @@ def enum_cases():
                 specs = [{"fin": 0, "op": rm.TEXT, "p": b"a"}, ping, {"fin": 0, "op": rm.CONT, "p": b""}, ping, {"fin": 1, "op": rm.CONT, "p": b"c"}]
             else:
                 specs = [ping, {"fin": 1, "op": rm.PONG, "p": payload}, ping, ping]
-            for di, (driver, cf) in enumerate((("recv", False), ("data", True), ("data_frame", False))):
+            for di, (driver, cf) in enumerate((("recv", False), ("data", True), ("data_frame", False), ("iter", False))):
                 yield {"frames": specs, "driver": driver, "cf": cf, "cuts": [] if n % 3 else list(range(1, 40)),
                        "pre": (None, None, "send_close", "send", "ping")[(n + di) % 5]}
 
@@ -152,8 +154,8 @@ def cases(draw):
         pos = draw(st.integers(0, limit))
         specs.insert(pos, {"fin": 1, "op": rm.PING, "p": p, "key": draw(rx.keys)})
         limit += 1
-    driver = draw(st.sampled_from(["recv", "data", "data_frame"]))
-    cf = draw(st.booleans()) if driver != "recv" else False
+    driver = draw(st.sampled_from(["recv", "data", "data_frame", "next", "iter"]))
+    cf = draw(st.booleans()) if driver not in rx.RECVS else False
     wire, frames, ends = rx.wire_of(specs)
     inside, seams = rx.header_offsets(frames)
     cuts = draw(rx.cutset(len(wire), inside + seams)) if draw(st.booleans()) else []
@@ -175,11 +177,59 @@ def cases(draw):
     return c
 
 
+def run_app_case(case):
+    """The same statement over the WebSocketApp route (its loop receives through recv_data_frame): the server of a
+    C13 scenario must have received exactly one pong per ping it sent, same payloads, same order, nothing else unsolicited."""
+    from . import c13
+
+    obs = Obs()
+    seen = {}
+
+    def peek(sc, frames1, frames2):
+        for (_idx, peer), flist in zip(sc.peers, (frames1, frames2)):
+            seen.setdefault("pings", []).append([f.payload for _dt, f in flist if f.opcode == rm.PING])
+            seen.setdefault("pongs", []).append([f.payload for _t, f in peer.frames if f.opcode == rm.PONG])
+            seen.setdefault("bad", []).extend(f for _t, f in peer.frames if f.opcode == rm.PONG and (not f.masked or f.rsv or not f.fin or not f.minimal))
+            seen.setdefault("unsolicited", []).extend(f for _t, f in peer.frames if f.opcode == rm.PING)
+
+    app_case = case["app"]
+    o13 = c13.run_case(app_case, peek=peek)
+    if "pings" not in seen:
+        # the run did not get as far as a finished scenario (hang / exception): that is C13's and C14's business
+        obs.cls = ("app-route", "no-verdict")
+        return obs
+    for ci, (pings, pongs) in enumerate(zip(seen["pings"], seen["pongs"])):
+        if pongs != pings:
+            what = "missing" if len(pongs) < len(pings) and pongs == pings[: len(pongs)] else "surplus" if len(pongs) > len(pings) and pongs[: len(pings)] == pings else "payload-or-order"
+            obs.fail(f"app-route|pongs-{what}", f"connection {ci}: server sent {len(pings)} pings {[p.hex() for p in pings][:6]}, received {len(pongs)} pongs {[p.hex() for p in pongs][:8]}")
+            break
+    if seen["bad"]:
+        obs.fail("app-route|malformed-pong", f"{seen['bad'][0]!r}")
+    if seen["unsolicited"]:
+        obs.fail("app-route|unsolicited-ping-written", f"{seen['unsolicited'][0]!r}")
+    npings = sum(len(p) for p in seen["pings"])
+    obs.cls = ("app-route", f"pings:{min(npings, 6)}", f"tls:{int(bool(app_case.get('secure')))}", f"echo:{int(bool(app_case.get('echo')))}", f"reconnected:{int(app_case.get('second') is not None)}")
+    obs.nt = ("app", repr(app_case["segments"]), app_case.get("secure"), repr(app_case.get("second"))) if npings >= 2 else None
+    return obs
+
+
+@st.composite
+def app_cases(draw):
+    from . import c13
+
+    c = draw(c13.cases())
+    if not any(s["op"] == rm.PING for _dt, specs in c["segments"] for s in specs):
+        seg = c["segments"][draw(st.integers(0, len(c["segments"]) - 1))]
+        seg[1].insert(draw(st.integers(0, len(seg[1]))), {"fin": 1, "op": rm.PING, "p": draw(st.binary(max_size=125))})
+    return {"app": c}
+
+
 def jobs(tier, seed):
     n, shards = (3200, 8) if tier == "quick" else (160000, 16)
+    na = 480 if tier == "quick" else 16000
     return [{"name": "lengths", "kind": "enum"}] + [
         {"name": f"hyp-{i}", "kind": "hyp", "seed": seed * 1000 + i, "n": n // shards} for i in range(shards)
-    ]
+    ] + [{"name": f"app-{i}", "kind": "app", "seed": seed * 1000 + 500 + i, "n": na // 8} for i in range(8)]
 
 
 def run_job(job, coll):
@@ -189,5 +239,7 @@ def run_job(job, coll):
         for c in long_run_cases():
             coll.check(c, run_case)
         coll.exhaustive["ping payload lengths 0..125 x {alone, between messages, inside a fragmented message, back-to-back}"] = True
+    elif job["kind"] == "app":
+        hyp_run(coll, app_cases(), run_case, job["seed"], job["n"])
     else:
         hyp_run(coll, cases(), run_case, job["seed"], job["n"])
